@@ -11,7 +11,7 @@ CLAIMED = {
  "C05": ("DE queue steps (SubmitDEs, DequeueDE, ResetDE, GetAvailableMembers, bounded histories) and assignment / end-block retry / RequestSigning under a fault schedule from an arbitrary DE state: FIFO, each pair handed out at most once and gone afterwards, MaxDESize bound, failed creations leave every queue unchanged", "DESIGN.md §5 C05, §8"),
  "C19": ("yoda handleTransaction / handleRequest / handleRawRequests / handleRawRequest / GetExecutable with RPC, keyring, executor and file cache as arbitrary-result fakes and all goroutine completion orders: exactly one report message per selected request with one raw report per external id (255 on load/sign/exec failure), passes the chain's report validation, no panic", "DESIGN.md §5 C19, §8"),
  "C11": ("signed payload binding: EncodeSigning layout and injectivity in id/time/content/originator hash, CreateSigning ids never repeat, Direct/Tunnel originator layouts and separation, all nine 4-byte tags equal keccak256(name)[:4] and are pairwise distinct, internal content kinds are refused by RequestSignature, every handler prepends its tag and packs the on-chain values (reference schema written in the harness)", "DESIGN.md §5 C11, §8"),
- "C12": ("relay proof construction: IAVL inner/leaf op parsing for every varint length, multistore proof positions against a reference RFC-6962 tree over the real store key list, encodeTime against the real gogoproto Timestamp marshalling", "DESIGN.md §5 C12, §8"),
+ "C12": ("relay proof construction: IAVL inner/leaf op parsing for every varint length, multistore proof positions against a reference RFC-6962 tree over the real store key list, encodeTime against the real gogoproto Timestamp marshalling, the message handed to signature recovery and the relayed vote parts against cometbft's real VoteSignBytes (commit-vote selection, ordering, R/S/V, error propagation; public-key recovery stubbed), header parts recombined as the bridge does against the real Header.Hash() (sha256 uninterpreted)", "DESIGN.md §5 C12, §8"),
  "C18": ("group transition: TransitionGroup / ForceTransitionGroup, the tss callbacks (group creation completed/failed/expired, signing completed/failed/timeout), requests during a transition and the bandtss EndBlocker from an arbitrary transition state: the current group changes only in ExecuteGroupTransition at/after ExecTime from WAITING_EXECUTION, otherwise the transition is dropped; members mirror the incoming group; no reachable panic", "DESIGN.md §5 C18, §8"),
  "C13": ("service fees: oracle CollectFee/feeCollector.Collect over a 2-denom bank (accept iff every cumulative fee stays within limit and balance; exact ledgers; debit never above the limit), bandtss createSigningRequest (fee = fee_per_signer x threshold, escrow, free for authority / no group, fee reject before any transfer, incoming-group request rolled back on failure) and payouts in OnSigningCompleted/OnSigningFailed from an arbitrary escrow state", "DESIGN.md §5 C13, §8"),
  "C14": ("one AllocateTokens step of x/oracle and x/bandtss and the wrapped bank BurnCoins over symbolic fee pools, powers, percentages, community tax and activity flags: exact conservation per denom, inactive participants get nothing, remainders to proposer / community pool, no negative Sub (no panic)", "DESIGN.md §5 C14, §8"),
